@@ -65,8 +65,8 @@ METHODS = ("get", "put", "post", "delete", "options", "head", "patch", "trace")
 
 def plan(tier: str, seed: int) -> dict:
     if tier == "quick":
-        return {"n_runs": 10_000_000, "budget_s": 60, "min_runs": 200, "minimise_s": 40}
-    return {"n_runs": 10_000_000, "budget_s": 900, "min_runs": 3000, "minimise_s": 90}
+        return {"n_runs": 10_000_000, "budget_s": 60, "min_runs": 30, "minimise_s": 40}
+    return {"n_runs": 10_000_000, "budget_s": 900, "min_runs": 500, "minimise_s": 90}
 
 
 # ---------------------------------------------------------------------- reference model of the document
